@@ -8,7 +8,7 @@ Syntax (no spaces inside a token):
   addr   := ma `;` succ `;` fail `;` seen
   cache  := `-` | entry (`|` entry)*        entry := peer `=` [addr (`+` addr)*]
   choice := `e:-` | `e:` peer (`,` peer)*   (peers the implementation evicted; tie-break witness)
-Ops:  cfg P A E N | tick d | add s ma e | upd s ma b | clean s e | flush s b e | write s | load e |
+Ops:  cfg P A E N | mk s mode | tick d | add s ma e | upd s ma b | clean s e | flush s b e | write s | load e |
       lupd ma b e | file cache | corrupt k | craft ma | race …
 -/
 namespace SafeNet.Driver.BootCache
@@ -150,6 +150,16 @@ def step (s : Sys) (ws : List String) : Sys × String :=
       | some ch1 => let s1 := attempt ch1; (s1, flushOut s1 i)
       | none => (s0, flushOut s0 i)
     | _, _, _, _ => (s, "bad-op")
+  | ["mk", i, mode] =>
+    -- store `i` is rebuilt: `n` = `new(config)`, otherwise `new_from_peers_args` (`d` = `bootstrap_cache_dir`
+    -- override with the config's own path elsewhere, `c` = no override, `f` = first, `l` = local, `i` = ignore_cache)
+    match i.toNat? with
+    | some i =>
+      let first := mode.contains 'f'
+      let dis := mode.contains 'l'
+      let s' := SafeNet.BootCache.step s (.rebuild i first dis)
+      (s', s!"m={memOf s' i} f={showFile s'.file}")
+    | none => (s, "bad-op")
   | ["write", i] =>
     match i.toNat? with
     | some i => let s' := SafeNet.BootCache.step s (.write i); (s', s!"f={showFile s'.file}")
